@@ -24,7 +24,8 @@
 \*     on the real optimisers, so the same invariants judge the implementation.
 EXTENDS Integers, Sequences, FiniteSets, TLC
 
-CONSTANTS Budgets,     \* design model: set of evaluation budgets (nbEvalMax)
+CONSTANTS MetaNs,      \* design model: numbers of precision stages (0 = not a meta-optimiser)
+          Budgets,     \* design model: set of evaluation budgets (nbEvalMax)
           Pols,        \* design model: set of constraint policies
           Objs,        \* design model: set of objective descriptions [quad, inact, conv]
           MaxRank,     \* design model: objective values are the ranks 0..MaxRank
@@ -39,6 +40,7 @@ VARIABLES
   pol,      \* constraint policy "auto" | "ignore" | "keep"
   box,      \* per coordinate <<has, inclLower, inclUpper>>
   max,      \* evaluation budget (nbEvalMax)
+  mn,       \* number of precision stages of a meta-optimiser (0: the optimiser is not one)
   obj,      \* [quad, inact, conv]: strictly convex quadratic / constraints inactive at the minimiser /
             \* conv: what the optimiser's stop condition watches: "f" the function value, "x" the abscissa,
             \* "none" it is no minimiser (the backtracking line search only promises sufficient decrease);
@@ -52,6 +54,7 @@ VARIABLES
   lo,       \* lowest rank evaluated since init (NoRank: none)
   touched,  \* since init, some evaluation sat on / next to / beyond a bound the policy keeps (a constraint was active)
   back,     \* phase to return to after a manual step
+  stage,    \* steps performed since the last init() (saturates at MaxStage)
   rep,      \* what the last optimize() reported (NoRep: nothing yet)
   br,       \* what the last bracketing call returned (NoRep: nothing yet)
   \* ghost verdict flags (all must stay FALSE)
@@ -59,10 +62,11 @@ VARIABLES
   overrun,  \* a loop iteration started although the counter had reached the budget
   lateStep, \* a loop iteration started although the tolerance flag was already set
   badRaise, \* a call raised without the constraint policy giving it a licence
-  earlyOk   \* optimize() before init() did not raise
+  earlyOk,  \* optimize() before init() did not raise
+  coarseLate \* a meta-optimiser ran a sub-optimiser with a tolerance coarser than requested in its n-th or a later step
 
-vars == <<phase, pol, box, max, obj, cnt, steps, tol, s0, held, pend, lo, touched, back, rep, br,
-          infeas, overrun, lateStep, badRaise, earlyOk>>
+vars == <<phase, pol, box, max, mn, obj, cnt, steps, tol, s0, held, pend, lo, touched, back, stage, rep, br,
+          infeas, overrun, lateStep, badRaise, earlyOk, coarseLate>>
 
 NoRep  == [none |-> TRUE]
 NoRank == -1
@@ -90,26 +94,27 @@ Licensed(r) == r = "raise:ConstraintException" /\ pol = "keep" /\ Constrained /\
 
 \* ---------------------------------------------------------------- actions
 Init ==
-  /\ phase = "New" /\ pol \in Pols /\ box \in Boxes /\ max \in Budgets /\ obj \in Objs
+  /\ phase = "New" /\ pol \in Pols /\ box \in Boxes /\ max \in Budgets /\ obj \in Objs /\ mn \in MetaNs
   /\ cnt = 0 /\ steps = 0 /\ tol = FALSE /\ s0 = NoRank /\ held = NoRank /\ pend = 0 /\ lo = NoRank /\ touched = FALSE
-  /\ back = "New" /\ rep = NoRep /\ br = NoRep
-  /\ infeas = FALSE /\ overrun = FALSE /\ lateStep = FALSE /\ badRaise = FALSE /\ earlyOk = FALSE
+  /\ back = "New" /\ stage = 0 /\ rep = NoRep /\ br = NoRep
+  /\ infeas = FALSE /\ overrun = FALSE /\ lateStep = FALSE /\ badRaise = FALSE /\ earlyOk = FALSE /\ coarseLate = FALSE
 
-Flags == <<infeas, overrun, lateStep, badRaise, earlyOk>>
-Conf  == <<pol, box, max, obj>>
+Flags == <<infeas, overrun, lateStep, badRaise, earlyOk, coarseLate>>
+MaxStage == 2
+Conf  == <<pol, box, max, mn, obj>>
 
 \* optimize() on an optimiser that was never initialised: raises, nothing changes
 OptEarly(r) ==
   /\ phase = "New"
   /\ earlyOk' = (earlyOk \/ ~IsRaise(r))
-  /\ UNCHANGED <<phase, Conf, cnt, steps, tol, s0, held, pend, lo, touched, back, rep, br, infeas, overrun, lateStep, badRaise>>
+  /\ UNCHANGED <<phase, Conf, cnt, steps, tol, s0, held, pend, lo, touched, back, rep, br, infeas, overrun, lateStep, badRaise, stage, coarseLate>>
 
 \* init(params) is entered with the objective worth f0 at the (admissible) start sf
 InitBegin(f0, sf) ==
   /\ phase \in {"New", "Inited", "Done"}
   /\ FeasPoint(sf)                              \* the driver only offers admissible starts
   /\ phase' = "Initing" /\ s0' = f0 /\ held' = f0 /\ pend' = 0 /\ lo' = NoRank /\ touched' = FALSE
-  /\ cnt' = 0 /\ steps' = 0 /\ tol' = FALSE /\ rep' = NoRep
+  /\ cnt' = 0 /\ steps' = 0 /\ tol' = FALSE /\ rep' = NoRep /\ stage' = 0
   /\ UNCHANGED <<Conf, back, br, Flags>>
 
 \* a batch of calls of the objective: pts[i] = <<codes, rank>>
@@ -121,7 +126,7 @@ EvalMany(pts) ==
   /\ LET m == CHOOSE r \in {pts[i][2] : i \in DOMAIN pts} : \A j \in DOMAIN pts : r <= pts[j][2]
      IN lo' = IF lo = NoRank THEN m ELSE Mn(lo, m)
   /\ touched' = (touched \/ (pol # "ignore" /\ \E i \in DOMAIN pts : ~ClearPoint(pts[i][1])))
-  /\ UNCHANGED <<phase, Conf, cnt, steps, tol, s0, held, back, rep, br, overrun, lateStep, badRaise, earlyOk>>
+  /\ UNCHANGED <<phase, Conf, cnt, steps, tol, s0, held, back, rep, br, overrun, lateStep, badRaise, earlyOk, stage, coarseLate>>
 Eval(cs, r) == EvalMany(<< <<cs, r>> >>)
 
 InitEnd(r) ==
@@ -129,7 +134,7 @@ InitEnd(r) ==
   /\ phase' = IF r = "ok" THEN "Inited" ELSE "Dead"
   /\ badRaise' = (badRaise \/ (IsRaise(r) /\ ~Licensed(r)))
   /\ pend' = 0
-  /\ UNCHANGED <<Conf, cnt, steps, tol, s0, held, lo, touched, back, rep, br, infeas, overrun, lateStep, earlyOk>>
+  /\ UNCHANGED <<Conf, cnt, steps, tol, s0, held, lo, touched, back, rep, br, infeas, overrun, lateStep, earlyOk, stage, coarseLate>>
 
 \* copies are interchangeable with the original: nothing the monitor tracks changes
 Clone ==
@@ -142,24 +147,26 @@ Rebox(b, ia) ==
   /\ phase \in {"New", "Inited", "Done"}
   /\ Len(b) = Len(box)
   /\ box' = b /\ obj' = [obj EXCEPT !.inact = ia]
-  /\ UNCHANGED <<phase, pol, max, cnt, steps, tol, s0, held, pend, lo, touched, back, rep, br, Flags>>
+  /\ UNCHANGED <<phase, pol, max, mn, stage, cnt, steps, tol, s0, held, pend, lo, touched, back, rep, br, Flags>>
 
 \* manual step(): no budget applies
 MStepBegin ==
   /\ phase \in {"Inited", "Done"}
   /\ phase' = "Stepping" /\ back' = phase /\ pend' = 0
-  /\ UNCHANGED <<Conf, cnt, steps, tol, s0, held, lo, touched, rep, br, Flags>>
+  /\ UNCHANGED <<Conf, cnt, steps, tol, s0, held, lo, touched, rep, br, stage, Flags>>
 
 \* optimize() is entered; the run starts from a point worth s
 OptBegin(s) ==
   /\ phase \in {"Inited", "Done"}
   /\ phase' = "Running" /\ s0' = s /\ cnt' = 0 /\ steps' = 0 /\ tol' = FALSE /\ pend' = 0 /\ rep' = NoRep
-  /\ UNCHANGED <<Conf, held, lo, touched, back, br, Flags>>
+  /\ UNCHANGED <<Conf, held, lo, touched, back, br, stage, Flags>>
 
 \* one iteration of the loop has completed (listener): the optimiser's counter
 \* reads nb, its tolerance flag t, its current value h.  The iteration started
 \* with the counter at cnt + 1 (the loop's own increment; 1 for the first).
-StepDone(nb, t, h) ==
+\* c: (meta-optimiser) a sub-optimiser was just run with a tolerance coarser than the requested one.  The k-th step
+\* since init() is precision stage k + 1; from stage mn on the schedule must have arrived at the requested tolerance.
+StepDone(nb, t, h, c) ==
   /\ phase \in {"Running", "Stepping"}
   /\ IF phase = "Running"
      THEN /\ overrun'  = (overrun \/ ~(cnt + 1 < max))
@@ -167,6 +174,8 @@ StepDone(nb, t, h) ==
           /\ steps' = steps + 1
      ELSE UNCHANGED <<overrun, lateStep, steps>>
   /\ cnt' = nb /\ tol' = t /\ held' = h /\ pend' = 0
+  /\ stage' = IF mn > 0 THEN Mn(stage + 1, MaxStage) ELSE 0    \* only a meta-optimiser has stages
+  /\ coarseLate' = (coarseLate \/ (mn > 0 /\ c /\ stage + 2 >= mn))
   /\ UNCHANGED <<phase, Conf, s0, lo, touched, back, rep, br, infeas, badRaise, earlyOk>>
 
 MStepEnd(r) ==
@@ -174,7 +183,7 @@ MStepEnd(r) ==
   /\ phase' = IF r = "ok" THEN back ELSE "Dead"
   /\ badRaise' = (badRaise \/ (IsRaise(r) /\ ~Licensed(r)))
   /\ pend' = 0
-  /\ UNCHANGED <<Conf, cnt, steps, tol, s0, held, lo, touched, back, rep, br, infeas, overrun, lateStep, earlyOk>>
+  /\ UNCHANGED <<Conf, cnt, steps, tol, s0, held, lo, touched, back, rep, br, infeas, overrun, lateStep, earlyOk, stage, coarseLate>>
 
 \* optimize() returned (r = "ok": ret = returned value, fv = getFunctionValue(),
 \* re = objective re-evaluated at getParameters(), feas = codes of that point,
@@ -189,13 +198,13 @@ Finish(r, ret, fv, re, feas, nb, t, q) ==
           /\ rep' = NoRep
           /\ badRaise' = (badRaise \/ ~Licensed(r))
   /\ tol' = t /\ pend' = 0
-  /\ UNCHANGED <<Conf, cnt, steps, s0, held, lo, touched, back, br, infeas, overrun, lateStep, earlyOk>>
+  /\ UNCHANGED <<Conf, cnt, steps, s0, held, lo, touched, back, br, infeas, overrun, lateStep, earlyOk, stage, coarseLate>>
 
 \* one-dimensional bracketing (bracketMinimum / inwardBracketMinimum)
 BrBegin ==
   /\ phase = "New"
   /\ phase' = "Bracketing" /\ pend' = 0
-  /\ UNCHANGED <<Conf, cnt, steps, tol, s0, held, lo, touched, back, rep, br, Flags>>
+  /\ UNCHANGED <<Conf, cnt, steps, tol, s0, held, lo, touched, back, rep, br, stage, Flags>>
 
 \* xs = dense ranks of the three abscissae (fields a, b, c), fs = ranks of their values
 Bracket(r, xs, fs) ==
@@ -204,7 +213,7 @@ Bracket(r, xs, fs) ==
   /\ IF r = "ok" THEN br' = [x |-> xs, f |-> fs] /\ UNCHANGED badRaise
                  ELSE br' = NoRep /\ badRaise' = TRUE
   /\ pend' = 0
-  /\ UNCHANGED <<Conf, cnt, steps, tol, s0, held, lo, touched, back, rep, infeas, overrun, lateStep, earlyOk>>
+  /\ UNCHANGED <<Conf, cnt, steps, tol, s0, held, lo, touched, back, rep, infeas, overrun, lateStep, earlyOk, stage, coarseLate>>
 
 \* ---------------------------------------------------------------- the property (C10)
 HasRep == rep # NoRep
@@ -249,6 +258,11 @@ MiddleLowest(t) ==
       /\ \A a \in o : t.f[m] <= t.f[a]
 Bracketed == br # NoRep => /\ \A i \in 1..3 : br.f[i] >= 0
                            /\ MiddleLowest(br)
+
+\* meta-optimiser: its n-stage precision schedule (tolerance_k = |f(start)| * 10^(k * step), k = 2..n, then the requested
+\* tolerance) hands the requested tolerance - nothing coarser - to its sub-optimisers from stage n on; this is what ties
+\* the accuracy of the meta-optimiser to ITS stopping tolerance
+MetaSchedule == ~coarseLate
 
 \* optimize() needs init(); no exception without a licence from the policy
 Protocol == ~earlyOk /\ ~badRaise
@@ -297,8 +311,9 @@ DStep      == /\ phase = "Running" => (cnt + 1 < max /\ ~tol)
               /\ \E extra \in 0..MaxInner, t \in BOOLEAN :
                     LET h == IF lo # NoRank /\ lo < held THEN lo ELSE held
                         nb == IF phase = "Running" THEN cnt + 1 + extra ELSE cnt IN
-                    \/ StepDone(nb, t, h)
-                    \/ StepDone(nb, t, held)
+                    \E c \in (IF mn > 0 /\ stage + 2 < mn THEN BOOLEAN ELSE {FALSE}) :
+                       \/ StepDone(nb, t, h, c)
+                       \/ StepDone(nb, t, held, c)
 DFinish    == /\ phase = "Running"
               /\ ~(cnt + 1 < max /\ ~tol)
               /\ \E p \in {q \in Points : pol = "auto" => FeasPoint(q)} :
